@@ -734,7 +734,7 @@ def gen_jobs(ctx):
             for n in sizes_small + sizes_big:
                 for _ in range(3):
                     jobs.append(_one(rng, k, n))
-    for _ in range(500 if ctx.quick() else 6000):
+    for _ in range(440 if ctx.quick() else 6000):
         spec = _zones(rng, F.gen_spec(rng, n=rng.choice(sizes_small + ([257, 8193] if rng.random() < 0.1 else []))))
         o = rt.gen_opts(rng, spec)
         o["file_scheme"] = rng.choice(["simple", "simple", "hive", "drill"])
